@@ -185,8 +185,8 @@ def obligations(tier):
             c = tuple(rnd.randrange(5) for _ in range(6))
             if c not in oa and c not in FOUR:
                 extra.add(c)
-        for k, c in enumerate(oa):   # 4 steps cost about 5 CPU minutes per obligation: every other row of the array, the rest at 3 steps
-            obs += (hist2(c, 4 if k % 2 == 0 else 3, 7200))
+        for k, c in enumerate(oa):   # 4 steps cost 4-7 CPU minutes per obligation: every third row of the array, the rest at 3 steps
+            obs += (hist2(c, 4 if k % 3 == 0 else 3, 7200))
         for c in FOUR:
             obs += (hist2(c, 4, 7200))
         for c in sorted(extra):
@@ -204,7 +204,7 @@ META = {
                   "takes all 25 shape pairs - plus, in thorough, 2 hand-picked (and 6 drawn from VERIF_SEED at 3 steps)",
         "history": "EVERY sequence of exactly N steps. hist1: N = 4 (5 for one configuration in thorough), step kinds load M1|M2|M3, load_external y (a fresh "
                    "address each time), link with resolver NULL | a resolver that knows only y (6 kinds; the code does not distinguish names, so the "
-                   "one-name runs use y, the name the resolver knows). hist2: N = 3 (quick; thorough: 4 for every other row of the array and the hand-picked ones, 3 for the rest), all 7 kinds (also load_external x). "
+                   "one-name runs use y, the name the resolver knows). hist2: N = 3 (quick; thorough: 4 for every third row of the array and the hand-picked ones, 3 for the rest), all 7 kinds (also load_external x). "
                    "All checks are made when a step completes, so N-step histories cover the shorter ones. Redefinition permission (set once before the history): "
                    "both values, one obligation each (.p0/.p1), in every configuration with an exported function (it is only read when one is loaded).",
         "add_item": "every sequence of 3 (quick) / 4 (thorough) items of one name in one module, kinds over {import, export, forward, proto, data, bss, func}",
